@@ -249,7 +249,10 @@ def gen_ops(rng, drv, st, length):
         elif k == "setpoints":
             op = ("setpoints", rand_points(rng, n + (1 if bad else 0), dim))
         elif k == "setweights":
-            if bad and n >= 2:
+            if bad and rng.random() < 0.5:
+                # wrong number of weights, all of one sign (e.g. stale weights kept from before a refinement)
+                op = ("setweights", rand_weights(rng, n + rng.choice([-1, 1, 2]) if n > 1 else n + 1, "pos"))
+            elif bad and n >= 2:
                 w = [F(1)] * n
                 w[rng.randrange(n)] = F(-2)
                 op = ("setweights", w)
